@@ -138,23 +138,31 @@ class Sequence:
 
     def add_absolute_message(self, msg) -> None:
         """See `scoda.sequence.absolute_sequence.AbsoluteSequence.add_message`."""
-        self.abs.add_message(msg)
-        self.invalidate_rel()
+        try:
+            self.abs.add_message(msg)
+        finally:
+            self.invalidate_rel()
 
     def add_relative_message(self, msg, index=None) -> None:
         """See `scoda.sequence.relative_sequence.RelativeSequence.add_message`."""
-        self.rel.add_message(msg, index=index)
-        self.invalidate_abs()
+        try:
+            self.rel.add_message(msg, index=index)
+        finally:
+            self.invalidate_abs()
 
     def concatenate(self, sequences: list[Sequence]) -> None:
         """See `scoda.sequence.relative_sequence.RelativeSequence.concatenate`."""
-        self.rel.concatenate([seq.rel for seq in sequences])
-        self.invalidate_abs()
+        try:
+            self.rel.concatenate([seq.rel for seq in sequences])
+        finally:
+            self.invalidate_abs()
 
     def cutoff(self, maximum_length, reduced_length) -> None:
         """See `scoda.sequence.relative_sequence.AbsoluteSequence.cutoff`."""
-        self.abs.cutoff(maximum_length=maximum_length, reduced_length=reduced_length)
-        self.invalidate_rel()
+        try:
+            self.abs.cutoff(maximum_length=maximum_length, reduced_length=reduced_length)
+        finally:
+            self.invalidate_rel()
 
     def equals(self,
                other: object,
@@ -170,8 +178,10 @@ class Sequence:
 
     def merge(self, sequences: list[Sequence]) -> None:
         """See `scoda.sequence.absolute_sequence.AbsoluteSequence.merge`."""
-        self.abs.merge([seq.abs for seq in sequences])
-        self.invalidate_rel()
+        try:
+            self.abs.merge([seq.abs for seq in sequences])
+        finally:
+            self.invalidate_rel()
         self.normalise()
 
     def messages_abs(self) -> Generator[Message]:
@@ -206,8 +216,10 @@ class Sequence:
 
     def normalise(self) -> None:
         """See `scoda.sequence.relative_sequence.RelativeSequence.normalise_relative`."""
-        self.rel.normalise_relative()
-        self.invalidate_abs()
+        try:
+            self.rel.normalise_relative()
+        finally:
+            self.invalidate_abs()
 
     def overwrite_absolute_messages(self, messages: list[Message]) -> None:
         """Overwrites the messages of the absolute sequence.
@@ -239,8 +251,10 @@ class Sequence:
 
     def pad(self, padding_length) -> None:
         """See `scoda.sequence.relative_sequence.RelativeSequence.pad`."""
-        self.rel.pad(padding_length)
-        self.invalidate_abs()
+        try:
+            self.rel.pad(padding_length)
+        finally:
+            self.invalidate_abs()
 
     def save(self, file_path: str) -> MidiFile:
         """Saves the given sequence as a MIDI file.
@@ -255,8 +269,10 @@ class Sequence:
 
     def set_channel(self, channel: int) -> None:
         """See `scoda.sequence.relative_sequence.RelativeSequence.set_channel`."""
-        self.rel.set_channel(channel)
-        self.invalidate_abs()
+        try:
+            self.rel.set_channel(channel)
+        finally:
+            self.invalidate_abs()
 
     def split(self, capacities: list[int]) -> list[Sequence]:
         """See `scoda.sequence.relative_sequence.RelativeSequence.split`."""
@@ -266,16 +282,20 @@ class Sequence:
 
     def scale(self, factor, meta_sequence=None, quantise_afterwards=True) -> None:
         """See `scoda.sequence.relative_sequence.RelativeSequence.scale`."""
-        self.rel.scale(factor, meta_sequence)
-        self.invalidate_abs()
+        try:
+            self.rel.scale(factor, meta_sequence)
+        finally:
+            self.invalidate_abs()
 
         if quantise_afterwards:
             self.quantise_and_normalise()
 
     def transpose(self, transpose_by: int) -> bool:
         """See `scoda.sequence.relative_sequence.RelativeSequence.transpose`."""
-        shifted = self.rel.transpose(transpose_by)
-        self.invalidate_abs()
+        try:
+            shifted = self.rel.transpose(transpose_by)
+        finally:
+            self.invalidate_abs()
 
         # Possible that notes overlap
         if shifted:
@@ -286,13 +306,17 @@ class Sequence:
 
     def quantise(self, step_sizes: list[int] = None) -> None:
         """See `scoda.sequence.absolute_sequence.AbsoluteSequence.quantise`."""
-        self.abs.quantise(step_sizes)
-        self.invalidate_rel()
+        try:
+            self.abs.quantise(step_sizes)
+        finally:
+            self.invalidate_rel()
 
     def quantise_note_lengths(self, note_values=None, standard_length=PPQN, do_not_extend=False) -> None:
         """See `scoda.sequence.absolute_sequence.AbsoluteSequence.quantise_note_lengths`."""
-        self.abs.quantise_note_lengths(note_values, standard_length=standard_length, do_not_extend=do_not_extend)
-        self.invalidate_rel()
+        try:
+            self.abs.quantise_note_lengths(note_values, standard_length=standard_length, do_not_extend=do_not_extend)
+        finally:
+            self.invalidate_rel()
 
     def quantise_and_normalise(self, step_sizes: list[int] = None, note_values=None, standard_length=PPQN,
                                do_not_extend=False) -> None:
